@@ -1,7 +1,7 @@
 from common import COMMON_TB
 
 CONFIG = {
-    "lean_modules": ["SA.Props.C09", "SA.Props.C09Inst"],
+    "lean_modules": ["SA.Props.C09", "SA.Props.C09Inst", "SA.Props.C09Par", "SA.Props.C09Domain"],
     "level_text": "Theorems C09_request_roundtrip / C09_labels_ok / C09_too_long_reported proved in Lean for every request "
                   "type, every field value in range, every payload length, every tunnel domain of plain labels and every codec "
                   "pair meeting C08's roundtrip + alphabet_safe: whenever the client's PrepareHostname accepts the "
@@ -17,7 +17,15 @@ CONFIG = {
                   "0..260 x 8 codecs x multi-query flag) on every run. The model - now running C08's codec models, not "
                   "per-case look-up tables - is tied to the Go code by running both on the same requests through the real "
                   "serializer and the real miekg Pack/Unpack and comparing the unpacked question name, label statistics and the "
-                  "decoded request.",
+                  "decoded request. Concurrency (SA.Props.C09Par): C09_batch_pointwise / C09_concurrent_requests_roundtrip(_inst) / "
+                  "C09_par_op_pointwise state that the outcome for one query of a batch handled at the same moment is the outcome "
+                  "of that query alone and that every in-scope member is decoded as sent; the tie is the `par` op, which pushes "
+                  "batches of requests of several users / codecs / commands / domains through the real serializers and the shared "
+                  "codec singletons on G goroutines and compares every result with the same request processed alone. Domain "
+                  "spellings (SA.Props.C09Domain): C09_fqdn_domain_reported - a tunnel domain written with its final dot makes every "
+                  "request a reported failure (the name ends in two dots and does not pack) in the model, as in the code; all "
+                  "spelling classes (final dot, case, one/many labels, 63/64-octet labels, long, escapes, malformed) are driven "
+                  "through the real code and the model agrees on every one.",
     "level_note": "miekg/dns packDomainName/UnpackDomainName are modelled, not verified (validated on every generated case). "
                   "Library codecs (encoding/base32, base64, ascii85, mtraver/base91, luci base128 decode) are modelled at the "
                   "level of their algorithm in C08 and tied by correspondence. Raw (not name-safe by design) and Base192 (open "
@@ -36,7 +44,14 @@ CONFIG = {
             "bytes; (3) every other command x codec x 4 domains with enumerated field boundaries, all 27 tri-state and all "
             "81 codec-letter combinations; (4) the real TestPatterns() of all 8 codecs as upstream probes; (5) user ids "
             "(every 7th quick / all 1296 thorough), all 36 cache characters, out-of-range user ids; (6) 1500/30000 random "
-            "requests over random domain lengths 1..235. non-trivial = request accepted, packed, unpacked and decoded; "
+            "requests over random domain lengths 1..235; (7) concurrent batches `par G iters ops`: per selectable codec 8 users' packet "
+            "requests (equal payload lengths, and different lengths + a retransmission + another command), 8 mixed batches of 12 "
+            "(codecs x commands x 6 domains; Raw and an mtu op once), G=24 x 40 iterations (thorough: 4 rounds, G=48 x 120): every "
+            "result must equal the result of the same request processed alone, before and after; (8) 37 spellings of the tunnel "
+            "domain (final dot, upper/mixed case, one label, 12 labels, 63- and 64-octet label, 200/230/240 characters, "
+            "characters miekg escapes written raw and as \\DDD / \\c escapes, empty labels, lone dot, dangling backslash) x 6 codecs "
+            "x 8 requests (thorough 18). For a spelling that is not plain labels only a *silent* difference fails the monitor "
+            "(a reported failure is allowed). non-trivial = request accepted, packed, unpacked and decoded; "
             "distinct = distinct op line",
     "trusted_base": COMMON_TB + ["models SA.Model.DnsWire / DnsReq hand-written; tied by per-op comparison of the unpacked "
                                  "question name (hex), longest label, wire octets and every decoded field",
@@ -44,5 +59,7 @@ CONFIG = {
                                  "codec instances = C08's models SA.Model.Codec (hand-written; tied by C08's own correspondence and, through this component, on every request)"],
     "assumptions": ["upstream codec is one of Base32/64/64u/85/91/128 (the general theorems take any codec pair with C08's roundtrip and alphabet_safe as hypotheses)",
                     "tunnel domain = dot-separated labels of 1..63 characters that miekg prints unescaped",
-                    "single-question mode (UseMultiQuery is never set by the client)"],
+                    "single-question mode (UseMultiQuery is never set by the client)",
+                    "concurrency: the model is a function of the request; absence of shared mutable state on the real request path is "
+                    "a tested tie (par ops, needs >= 2 CPUs to interleave), not a proof about Go memory"],
 }
